@@ -179,6 +179,11 @@ def directText (env : Env) (m : Meth) (t : TD) : String :=
   | .special s | .ptr (.special s) => specialText s
   | t => quoteJSON (directTag env m t)
 
+/-- the field lives behind an embedded pointer that is nil in the canonical value -/
+def embedNil (visits : Nat) : Choice → Bool
+  | .embedPtr x => decide (maxIndir ≤ visits) || embedNil (visits + 1) x
+  | _ => false
+
 /-- `top dyn` = the tree of a top-level value of type dyn (the content of an interface goes through the cache) -/
 partial def render (env : Env) (top : TD → Choice) (visits : Nat) (t : TD) (c : Choice) : Option String :=
   let u := under env t
@@ -242,6 +247,8 @@ partial def render (env : Env) (top : TD → Choice) (visits : Nat) (t : TD) (c 
     let rec go : CL → Option (List String)
       | .nil => some []
       | .cons n ft fc r => do
+        -- a field behind a nil embedded pointer is left out (encodeEmbeddedStructPointer: rollback)
+        if embedNil visits fc then go r else
         let s ← render env top visits ft fc
         let rest ← go r
         pure ((quoteJSON n ++ ":" ++ s) :: rest)
@@ -282,9 +289,10 @@ def renderTop (top : Nat → Env → TD → Choice) (env : Env) (t : TD) : Strin
 itself under construction (the embedding struct lies inside `typ`, e.g. `type T struct { X int; F []struct{ T } }`
 marshalled through a pointer) that list is still empty: the embedding struct silently loses the promoted fields. -/
 
-/-- the shape is excluded from `choose_eq_std` by the hypothesis `embedsRecursive env t = false`
-(Spec/Json/EmbedCycle.lean: some struct inside `t` embeds a struct type that contains the embedding struct again) -/
-def embedsRecursive1 (env : Env) (t : TD) : Bool := Enc.Spec.Json.EmbedCycle.embedsRecursive env t
+/-- the shape is excluded from `choose_eq_std` by the hypothesis `embedCycle env t = false`
+(Spec/Json/EmbedCycle.lean: some struct inside `t` lies on a cycle of EMBEDDED structs; since the repair of the
+defect a cycle through a regular field, `type T struct { X int; F []struct{ T } }`, is not excluded any more) -/
+def embedsRecursive1 (env : Env) (t : TD) : Bool := Enc.Spec.Json.EmbedCycle.embedCycle env t
 
 mutual
 /-- the types of the contents of the interfaces in the value under test (each is compiled on its own, through the cache) -/
